@@ -86,7 +86,7 @@ pub fn run(ctx: &Ctx) -> i32 {
         let tb = super::conv::cfg_to_bnf(&c.built.gc.cfg);
         let cyclic = has_cycle(&tb);
         let nprods = c.built.gc.cfg.pr.len() as u64;
-        let ninputs = if quick { 60 } else { 300 };
+        let ninputs = per_case(if quick { 60 } else { 300 });
         let mut any = false;
         let mut runaway_seen = false;
         for n in 0..ninputs {
@@ -120,7 +120,7 @@ pub fn run(ctx: &Ctx) -> i32 {
                 }
                 4 if n % 40 == 4 => {
                     // very long sentence (up to ~10^4 tokens)
-                    match wl::random_sentence(&c.bnf, rng, if quick { 2000 } else { 10000 }) {
+                    match wl::random_sentence(&c.bnf, rng, per_case(if quick { 2000 } else { 10000 })) {
                         Some(w) => (wl::render_tokens(&c.g, &w, rng, false), "long-sentence"),
                         None => (String::new(), "empty"),
                     }
